@@ -1,10 +1,75 @@
-import Martian.Util
-/-! STUB — property C16 is not built yet. -/
+import Martian.Model.Har
+import Martian.Drv.C15
+/-! Driver for C16: `hreq`, `hres`, `jsonpd`, `jsoncontent` (see go/internal/c16). -/
 namespace Martian.Drv.C16
-open Martian
+open Martian Martian.Go Martian.MessageView Martian.Har
+open Martian.Drv.C15 (parseMsg parseCapture unhexList)
+
+def showKVs (l : List KV) : String :=
+  if l.isEmpty then "-" else ",".intercalate (l.map fun kv => s!"{hex kv.1}:{hex kv.2}")
+
+def parseParam (s : String) : Option Param :=
+  match s.splitOn ":" with
+  | [n, v, f, c] => do
+    let n ← unhex n; let v ← unhex v; let f ← unhex f; let c ← unhex c
+    pure { name := n, value := v, fileName := f, contentType := c }
+  | _ => none
+
+/-- outer none = bad token; inner none = the trusted parser reported an error -/
+def parseParams (s : String) : Option (Option (List Param)) :=
+  if s = "err" then some none
+  else if s = "-" then some (some [])
+  else ((s.splitOn ",").mapM parseParam).map some
+
+def showParams (l : List Param) : String :=
+  if l.isEmpty then "-" else
+  ",".intercalate (l.map fun p => s!"{hex p.name}:{hex p.value}:{hex p.fileName}:{hex p.contentType}")
+
+def showPD : Option PostData → String
+  | none => "none"
+  | some pd => s!"pd {hex pd.mime} {showParams pd.params} {hex pd.text}"
+
+/-- Stand-in for encoding/json strings in the driver: identity on valid UTF-8, lossy otherwise. -/
+def jenc (s : Bytes) : Bytes := s
+def jdec (s : Bytes) : Option Bytes := if utf8Valid s then some s else some [0xEF, 0xBF, 0xBD]
 
 abbrev St := Unit
 def init : St := ()
-def step (s : St) (_toks : List String) : St × String := (s, "bad-op")
+
+def step (s : St) (toks : List String) : St × String :=
+  match toks with
+  | "hreq" :: spec :: _mode :: mt :: params :: rest =>
+    match parseCapture spec, unhex mt, parseParams params, parseMsg rest with
+    | some c, some mt, some ps, some m =>
+      match logRequest (fun _ _ => ps) mt c m with
+      | some r => (s, s!"ok {hex r.method} {hex r.url} {hex r.httpVersion} {r.bodySize} {showKVs r.headers} {showPD r.postData}")
+      | none => (s, "err")
+    | _, _, _, _ => (s, "bad-op")
+  | "hres" :: spec :: _mode :: infl :: rest =>
+    match parseCapture spec, parseMsg rest with
+    | some c, some m =>
+      let inflate : Bytes → Bytes → Option Bytes := fun _ x =>
+        if infl = "err" || infl = "na" || some x != m.body then none else unhex infl
+      match logResponse inflate c m with
+      | some r => (s, s!"ok {r.status} {hex r.httpVersion} {r.bodySize} {showKVs r.headers} {hex r.redirectURL} {r.content.size} {hex r.content.mime} {hex r.content.text}")
+      | none => (s, "err")
+    | _, _ => (s, "bad-op")
+  | ["jsonpd", mime, params, text] =>
+    match unhex mime, parseParams params, unhex text with
+    | some mime, some (some ps), some text =>
+      let p : PostData := { mime := mime, params := ps, text := text }
+      let j := marshalPD jenc p
+      let rt := if unmarshalPD jdec j == some p then "ok" else "lossy"
+      (s, (if j.encoding.isSome then "base64 " else "text ") ++ (if rt == "ok" then hex j.text else "?") ++ " rt=" ++ rt)
+    | _, _, _ => (s, "bad-op")
+  | ["jsoncontent", b64, mime, text] =>
+    match unhex mime, unhex text with
+    | some mime, some text =>
+      let c : Content := { size := text.length, mime := mime, text := text, base64 := b64 == "1" }
+      let j := marshalContent jenc c
+      let rt := if unmarshalContent jdec j == some c then "ok" else "lossy"
+      (s, (if j.encoding.isSome then "base64 " else "text ") ++ (if rt == "ok" then hex j.text else "?") ++ " rt=" ++ rt)
+    | _, _ => (s, "bad-op")
+  | _ => (s, "bad-op")
 
 end Martian.Drv.C16
